@@ -1,6 +1,7 @@
 package main
 
 import (
+	"strings"
 	"fmt"
 	"go/constant"
 	"go/token"
@@ -446,6 +447,13 @@ func (x *executor) assumeInitialWF(st *state, p *Ptr) {
 
 func (x *executor) overflowObls(m *machine, fr *frame, in ssa.Instruction, ovf []overflowCheck) {
 	for _, o := range ovf {
+		if x.fc != nil && x.mathIntFor(x.instrName(fr, in, "overflow")) {
+			// `option mathint=<text>`: the 64-bit arithmetic of statements whose text contains <text> is treated as
+			// mathematical (a stated assumption, e.g. a counter that is incremented once per sync)
+			x.note("64-bit integer arithmetic of " + x.key + " is treated as mathematical (option mathint): overflow of " + x.instrName(fr, in, "overflow") + " is assumed not to happen")
+			m.st.assume(o.cond)
+			continue
+		}
 		x.oblige(m, "overflow", x.instrName(fr, in, "overflow"), o.cond, nil, "64-bit arithmetic does not overflow")
 		m.st.assume(o.cond)
 	}
@@ -1004,4 +1012,13 @@ func (x *executor) selectInstr(m *machine, fr *frame, in *ssa.Select) {
 	}
 	fr.env[in] = Val{tup: tup}
 	x.note("channel operations are opaque: a send has no effect on the verified state, a receive (also in a select) yields an arbitrary value of the element type, which case of a select fires is arbitrary; blocking and deadlock are not modelled")
+}
+
+func (x *executor) mathIntFor(name string) bool {
+	for o := range x.fc.options {
+		if strings.HasPrefix(o, "mathint=") && strings.Contains(name, strings.TrimPrefix(o, "mathint=")) {
+			return true
+		}
+	}
+	return false
 }
